@@ -38,8 +38,7 @@ def qt(t):
 
 
 class Translator:
-    SCOPES = ('NamespaceDecl', 'CXXRecordDecl', 'ClassTemplateSpecializationDecl', 'EnumDecl', 'ClassTemplateDecl',
-              'ClassTemplatePartialSpecializationDecl')
+    SCOPES = ('NamespaceDecl', 'CXXRecordDecl', 'ClassTemplateSpecializationDecl', 'EnumDecl', 'ClassTemplatePartialSpecializationDecl')
     FUNC_KINDS = ('FunctionDecl', 'CXXMethodDecl', 'CXXConstructorDecl', 'CXXConversionDecl')
 
     def __init__(self, chunks, opts=None):
@@ -189,11 +188,16 @@ class Translator:
     def norm(self, q, decl=False):
         """normal form of a type name.  decl=False: q is a type as clang prints it (namespace-qualified); decl=True: q is a declaration
         path without its namespace components already (tname)"""
-        if not decl:
-            q = re.sub(r'\bTeakra::Teakra\b', '@TKCLASS@', q)      # class Teakra inside namespace Teakra
+        def strip_ns(x):
+            x = re.sub(r'\bTeakra::Teakra\b', '@TKCLASS@', x)      # class Teakra inside namespace Teakra
             for ns in NAMESPACES:
-                q = q.replace(ns, '')
-            q = q.replace('@TKCLASS@', 'Teakra')
+                x = x.replace(ns, '')
+            return x.replace('@TKCLASS@', 'Teakra')
+        if not decl:
+            q = strip_ns(q)
+        elif '<' in q:
+            k = q.index('<')
+            q = q[:k] + strip_ns(q[k:])          # template arguments are printed types even inside a declaration path
         q = re.sub(r'\((\w+(?:::\w+)*)\)(-?\d+)', r'\2', q)          # (RegName)5 -> 5
         q = re.sub(r'\b(\w+(?:::\w+)+)\b', lambda m: self.enumvals.get(m.group(1), m.group(1)), q)
         q = re.sub(r'\b(struct|class|enum) ', '', q)
@@ -285,6 +289,15 @@ class Translator:
         if q in ('std::string', 'std::basic_string<char>', 'std::__cxx11::basic_string<char>') or q.startswith('std::basic_string<char,') or q.startswith('std::__cxx11::basic_string<char,'):
             self.rules['std::string -> verif_string (pointer + length)'] += 1
             return const + 'verif_string'
+        m = re.match(r'std::tuple<(.*)>$', q)
+        if m:
+            ets = [self.ctype_s(x) for x in self.split_targs(m.group(1))]
+            nm = 'tuple_' + '_'.join(re.sub(r'\W+', '_', e).strip('_') for e in ets)
+            if nm not in self.records:
+                self.rules['std::tuple<A,B> -> struct { A e0; B e1; }'] += 1
+                self.records[nm] = 'typedef struct %s { %s } %s;' % (nm, ' '.join('%s e%d;' % (e, k) for k, e in enumerate(ets)), nm)
+                self.rec_fields[nm] = ('tuple', ets, len(ets))
+            return const + nm
         if q.startswith('std::optional<'):
             self.rules['std::optional<T> -> verif_optional (engaged flag only)'] += 1
             return const + 'verif_optional'
@@ -306,6 +319,12 @@ class Translator:
             return const + self.emit_enum(self.enum_by_norm[nq])
         if nq in self.rec_by_norm:
             return const + self.emit_record(self.rec_by_norm[nq])
+        # a name printed without its enclosing class (clang prints function types as written): unique suffix match
+        cands = [k for k in self.enum_by_norm if k.endswith('::' + nq)]
+        if len(cands) == 1: return const + self.emit_enum(self.enum_by_norm[cands[0]])
+        cands = [k for k in self.rec_by_norm if k.endswith('::' + nq)]
+        if len(cands) == 1: return const + self.emit_record(self.rec_by_norm[cands[0]])
+        if q in ('auto', 'decltype(auto)'): raise Unsupported('deduced type')
         # forward-declared only (e.g. class MMIORegion; in this TU)
         nm = self.cident(q)
         if not nm or not re.match(r'^[A-Za-z_]\w*$', nm):
@@ -381,8 +400,12 @@ class Translator:
         isptr = subtype_c.rstrip().endswith('*')
         cur = subtype_c.replace('const ', '').rstrip('* ').strip()
         acc = ''
-        for step in n.get('path', []):
+        steps = n.get('path', [])
+        for si, step in enumerate(steps):
             want = self.norm(step['name'])
+            if si == len(steps) - 1:
+                full = qt(n['type']).replace('const ', '').strip().rstrip('*&').strip()
+                if full: want = self.norm(full)
             hit = None
             for (bq, bn, k) in self.rec_bases.get(cur, []):
                 if bq == want: hit = (bn, k)
@@ -412,6 +435,8 @@ class Translator:
         if ck in ('IntegralCast',): return '((%s)%s)' % (self.ctype(n['type']), x)
         if ck == 'IntegralToBoolean': return '(%s != 0)' % x
         if ck in ('UncheckedDerivedToBase', 'DerivedToBase'):
+            if qt(sub['type']).replace('const ', '').startswith('std::atomic<'):
+                return x          # std::atomic<T> -> T: the __atomic_base sub-object is the value itself
             return self.base_path(n, x, self.ctype(sub['type']))
         if ck == 'ToVoid': return '((void)%s)' % x
         if ck == 'NullToPointer': return '0'
@@ -594,9 +619,23 @@ class Translator:
         if len(ins) == 1 and self.ctype(ins[0]['type']).replace('const ', '').rstrip(' *') == ct and \
            ('&' in n.get('ctorType', {}).get('qualType', '&')):
             return self.e(ins[0])          # copy / move of a value type
+        if ct.startswith('tuple_'):
+            src = strip_casts(ins[0]) if ins else None
+            while src is not None and src.get('kind') in ('CXXConstructExpr', 'CXXFunctionalCastExpr') and len(inner(src)) == 1:
+                src = strip_casts(inner(src)[0])
+            if src is not None and src.get('kind') == 'CallExpr' and self.callee_name(src) == 'make_tuple':
+                ets = self.rec_fields[ct][1]
+                args = inner(src)[1:]
+                self.rules['std::make_tuple(a, b) -> compound literal'] += 1
+                return '((%s){%s})' % (ct, ', '.join('((%s)%s)' % (t, self.e(a)) for t, a in zip(ets, args)))
+            if src is not None and self.ctype(src['type']).replace('const ', '') == ct:
+                return self.e(src)
+            raise Unsupported('tuple construction')
         if ct == 'verif_bitset16':
             self.rules['std::bitset<16>(v) -> (u16)v'] += 1
             return '((verif_bitset16)%s)' % (self.e(ins[0]) if ins else '0')
+        if q.startswith('std::atomic<'):
+            return self.e(ins[0]) if ins else 'VERIF_INDETERMINATE(%s)' % ct
         if (ct.startswith('verif_queue_') or ct in ('verif_fn', 'verif_vec_ptr')) and not ins:
             return '((%s){0})' % ct
         if ct == 'verif_fn' and ins:
@@ -654,6 +693,8 @@ class Translator:
             while len(vals) < cnt:
                 vals.append(self.fresh_value(m.group(1), value_init=True) if m else '0')
             return '((%s){{%s}})' % (ct, ', '.join(vals))
+        if not ins and ct and (ct.replace('const ', '') in self.PRIM.values() or ct.replace('const ', '') in self.enums or ct.endswith('*')):
+            return '0'
         rd = self.record_of_type(n['type']) if ct else None
         if rd is not None:
             cn = self.emit_record(rd)
@@ -781,6 +822,25 @@ class Translator:
             if name == 'move' or name == 'forward':
                 self.dropped['std::move'] += 1
                 return self.e(args[0])
+            if name == 'make_tuple':
+                ct = self.ctype(n['type']).replace('const ', '')
+                ets = self.rec_fields[ct][1]
+                self.rules['std::make_tuple(a, b) -> compound literal'] += 1
+                return '((%s){%s})' % (ct, ', '.join('((%s)%s)' % (t, self.e(a)) for t, a in zip(ets, args)))
+            if name in ('copy', 'copy_backward'):
+                et = self.ctype(args[0]['type']).replace('const ', '').rstrip(' *').strip()
+                fn = 'verif_%s_%s' % (name, re.sub(r'\W+', '_', et))
+                if fn not in self.out_funcs:
+                    self.rules['std::%s on array iterators -> element loop' % name] += 1
+                    if name == 'copy':
+                        body = '    while (first != last) { *dst = *first; ++dst; ++first; }\n    return dst;'
+                    else:
+                        body = '    while (first != last) { --dst; --last; *dst = *last; }\n    return dst;'
+                    self.protos[fn] = 'static inline %s *%s(%s *first, %s *last, %s *dst);' % (et, fn, et, et, et)
+                    self.out_funcs[fn] = '/* std::%s */\nstatic inline %s *%s(%s *first, %s *last, %s *dst)\n{\n%s\n}\n' % (name, et, fn, et, et, et, body)
+                    self.func_src[fn] = ('std::' + name, '', 0)
+                if self.curfn: self.calls[self.curfn].add(fn)
+                return '%s(%s)' % (fn, ', '.join(self.e(a) for a in args))
             if name in self.STD_FUNCS:
                 self.rules['std::%s -> %s' % (name, self.STD_FUNCS[name])] += 1
                 return '%s(%s)' % (self.STD_FUNCS[name], ', '.join(self.e(a) for a in args))
@@ -795,7 +855,15 @@ class Translator:
         if name == 'Assert':
             self.rules['UNREACHABLE() -> VERIF_ASSERT(0)'] += 1
             return 'VERIF_ASSERT(0, %s, %s)' % (self.e(args[0]), self.e(args[2]))
-        return '%s(%s)' % (self.use_func(d['id']), ', '.join(self.call_args(args, self.byid[self.defn.get(d['id'], d['id'])])))
+        return self.deref_if_ref(d, '%s(%s)' % (self.use_func(d['id']), ', '.join(self.call_args(args, self.byid[self.defn.get(d['id'], d['id'])]))))
+
+    def deref_if_ref(self, d, callx):
+        ft = d.get('type', {}).get('qualType', '')
+        ret = ft[:ft.index('(')].strip() if '(' in ft else ''
+        if ret.endswith('&'):
+            self.rules['call of a function returning a reference -> dereferenced pointer'] += 1
+            return '(*%s)' % callx
+        return callx
 
     def in_repo(self, d):
         return d.get('id') in self.qual and d.get('id') not in self.external_ids and not (self.qual[d['id']] and self.qual[d['id']][0] in astload.SKIP_NS)
@@ -818,7 +886,7 @@ class Translator:
             objx = self.addr(obj)
         if dd.get('virtual') and (dd.get('pure') or not has_body(dd) or self.has_overriders(dd)):
             return self.virtual_call(dd, objx, args)
-        return '%s(%s)' % (self.use_func(mid), ', '.join([objx] + self.call_args(args, dd)))
+        return self.deref_if_ref(dd, '%s(%s)' % (self.use_func(mid), ', '.join([objx] + self.call_args(args, dd))))
 
     def has_overriders(self, d):
         return bool(self.overriders(d))
@@ -885,8 +953,10 @@ class Translator:
         if ot.startswith('std::array<'):
             if name == 'size':
                 m = re.search(r', (\d+)>$', ot); return m.group(1) + 'ull'
-            if name == 'data':
-                return '%s.e' % self.e(obj)
+            if name in ('data', 'begin'):
+                return '(&%s.e[0])' % self.e(obj)
+            if name == 'end':
+                m = re.search(r', (\d+)>$', ot); return '(&%s.e[0] + %s)' % (self.e(obj), m.group(1))
         if ot.startswith('std::queue<'):
             ox = self.addr(obj)
             self.rules['std::queue::%s -> VERIF_QUEUE_%s' % (name, name.upper())] += 1
@@ -905,6 +975,23 @@ class Translator:
             if name in ('length', 'size'):
                 self.rules['std::string::length -> .len'] += 1
                 return '%s.len' % self.e(obj)
+        if ot.startswith('std::unordered_set<') or ot.startswith('std::unordered_map<'):
+            so = strip_casts(obj)
+            tab = self.static_tables.get(so.get('referencedDecl', {}).get('id')) if so.get('kind') == 'DeclRefExpr' else None
+            if tab is None: raise Unsupported('unordered container that is not a constant static table')
+            if self.pre_stmts is None: raise Unsupported('table lookup outside statement context')
+            key = self.fresh('key')
+            self.pre_stmts.append('%s %s = %s;' % (self.ctype(args[0]['type']).replace('const ', ''), key, self.e(args[0])))
+            if name == 'count' and tab[0] == 'set':
+                self.rules['constant std::unordered_set::count -> comparison chain'] += 1
+                return '((u64)(%s))' % ' || '.join('(%s == %s)' % (key, k) for k in tab[1])
+            if name == 'at' and tab[0] == 'map':
+                self.rules['constant std::unordered_map::at -> selection chain (missing key = std::out_of_range outcome)'] += 1
+                x = 'VERIF_OUT_OF_RANGE(%s)' % self.ctype(n['type']).replace('const ', '')
+                for k, v in reversed(tab[1]):
+                    x = '(%s == %s ? %s : %s)' % (key, k, v, x)
+                return x
+            raise Unsupported('unordered container member ' + name)
         if ot.startswith('std::function<') and name == 'operator bool':
             fld, own, ox = self.fn_field(obj)
             self.rules['std::function operator bool -> .set flag'] += 1
@@ -928,6 +1015,10 @@ class Translator:
             if dd.get('kind') == 'CXXMethodDecl':
                 return '%s(%s)' % (self.use_func(dd['id']), ', '.join([self.addr(args[0])] + self.call_args(args[1:], dd)))
             return '%s(%s)' % (self.use_func(dd['id']), ', '.join(self.call_args(args, dd)))
+        if t0.startswith('std::atomic<') or t0.startswith('std::__atomic_base<'):
+            self.rules['std::atomic operator -> plain operation (sequential)'] += 1
+            if name == 'operator=': return '(%s = %s)' % (self.e(args[0]), self.e(args[1]))
+            if name.startswith('operator ') : return self.e(args[0])
         if name == 'operator[]' and t0.startswith('std::array<'):
             return '%s.e[%s]' % (self.e(args[0]), self.e(args[1]))
         if name == 'operator[]' and (t0.startswith('std::basic_string<char') or t0 == 'std::string' or t0.startswith('std::__cxx11::basic_string<char')):
@@ -952,6 +1043,19 @@ class Translator:
             self.rules['std::function invocation -> CB_<Class>_<field> stub'] += 1
             if self.curfn: self.calls[self.curfn].add(sn)
             return '(VERIF_FN_CHECK(%s), %s(%s))' % (self.e(args[0]), sn, ', '.join([ox] + [self.e(a) for a in args[1:]]))
+        if name == 'operator=' and strip_casts(args[0]).get('kind') == 'CallExpr' and self.callee_name(strip_casts(args[0])) == 'tie':
+            targets = inner(strip_casts(args[0]))[1:]
+            ct = self.ctype(strip_casts(args[1])['type']).replace('const ', '')
+            if self.pre_stmts is None: raise Unsupported('std::tie outside statement context')
+            tmp = self.fresh('tie')
+            self.pre_stmts.append('%s %s = %s;' % (ct, tmp, self.e(args[1])))
+            parts = []
+            for k, t in enumerate(targets):
+                st = strip_casts(t)
+                if st.get('kind') == 'DeclRefExpr' and st['referencedDecl'].get('name') == 'ignore': continue
+                parts.append('(%s = %s.e%d)' % (self.e(t), tmp, k))
+            self.rules['std::tie(a, b) = f() -> temporaries'] += 1
+            return '(%s)' % ', '.join(parts) if parts else '((void)0)'
         if name == 'operator=':
             lhs = self.e(args[0])
             if t0.startswith('std::function<'):
@@ -990,6 +1094,11 @@ class Translator:
         k = n['kind']; p = '    ' * ind
         f = getattr(self, 's_' + k, None)
         if f: return f(n, ind)
+        sn = strip_casts(n)
+        if sn.get('kind') == 'CXXOperatorCallExpr' and self.callee_name(sn) == 'operator()':
+            a0 = strip_casts(inner(sn)[1])
+            if a0.get('kind') == 'DeclRefExpr' and a0['referencedDecl']['id'] in self.lambdas:
+                return self.s(self.lambdas[a0['referencedDecl']['id']], ind)
         save = self.pre_stmts
         self.pre_stmts = []
         try:
@@ -1042,10 +1151,65 @@ class Translator:
             out += self.vardecl(v, ind)
         return out
     def decomposition(self, v, ind):
-        raise Unsupported('structured binding')
+        p = '    ' * ind
+        ct = self.ctype(v['type']).replace('const ', '')
+        if not ct.startswith('tuple_'): raise Unsupported('structured binding of ' + qt(v['type']))
+        ins = inner(v)
+        init = [c for c in ins if c['kind'] != 'BindingDecl'][0]
+        binds = [c for c in ins if c['kind'] == 'BindingDecl']
+        tmp = self.fresh('dec')
+        pre, x = self.with_pre(ind, lambda: self.e(init))
+        out = pre + [p + '%s %s = %s;' % (ct, tmp, x)]
+        ets = self.rec_fields[ct][1]
+        for k, b in enumerate(binds):
+            nm = b['name']
+            out.append(p + '%s %s = %s.e%d;' % (ets[k], nm, tmp, k))
+            self.bindings[b['id']] = nm
+            hv = inner(b)
+            if hv and hv[0].get('referencedDecl'): self.bindings[hv[0]['referencedDecl']['id']] = nm
+        self.rules['structured binding auto [a, b] = f() -> temporaries'] += 1
+        return out
     def vardecl(self, v, ind):
         p = '    ' * ind
         q = qt(v['type'])
+        qq = q.replace('const ', '')
+        if qq.startswith('std::unordered_set<') or qq.startswith('std::unordered_map<'):
+            lst = None
+            def find_list(x):
+                if x.get('kind') == 'InitListExpr': return x
+                for c in inner(x):
+                    r = find_list(c)
+                    if r is not None: return r
+                return None
+            lst = find_list(v)
+            if lst is None or v.get('storageClass') != 'static': raise Unsupported('unordered container that is not a static constant table')
+            if qq.startswith('std::unordered_set<'):
+                self.static_tables[v['id']] = ('set', [self.e(x) for x in inner(lst)])
+            else:
+                pairs = []
+                for pr in inner(lst):
+                    kv = inner(strip_casts(pr))
+                    pairs.append((self.e(kv[0]), self.e(kv[1])))
+                self.static_tables[v['id']] = ('map', pairs)
+            self.rules['static constant std::unordered_set/map -> compile-time table'] += 1
+            return [p + '/* static table %s: %d entries, expanded at its uses */' % (v['name'], len(self.static_tables[v['id']][1]))]
+        ins0 = [c for c in inner(v) if not c['kind'].endswith('Attr')]
+        if ins0 and strip_casts(ins0[0]).get('kind') == 'LambdaExpr':
+            lam = strip_casts(ins0[0])
+            body = [c for c in inner(lam) if c['kind'] == 'CompoundStmt']
+            def has_return(x):
+                if x.get('kind') == 'ReturnStmt': return True
+                return any(has_return(c) for c in inner(x))
+            meth = [c for c in inner(lam) if c['kind'] == 'CXXRecordDecl']
+            params = []
+            for m_ in meth:
+                for c in inner(m_):
+                    if c.get('kind') == 'CXXMethodDecl' and c.get('name') == 'operator()':
+                        params = [x for x in inner(c) if x['kind'] == 'ParmVarDecl']
+            if not body or has_return(body[0]) or params: raise Unsupported('lambda with parameters or a return value')
+            self.lambdas[v['id']] = body[0]
+            self.rules['parameterless by-value lambda -> inlined at its calls'] += 1
+            return [p + '/* lambda %s: inlined at its calls */' % v['name']]
         if q.startswith('std::lock_guard<') or q.startswith('const std::lock_guard<'):
             self.dropped['std::lock_guard (sequential semantics)'] += 1
             return [p + '/* lock_guard dropped */']
@@ -1243,6 +1407,8 @@ class Translator:
         self.curfn = nm; self.loopno = 0
         self.renames = {}
         self.bindings = {}
+        self.static_tables = {}
+        self.lambdas = {}
         ft = d['type']['qualType']
         ret = ft[:ft.index('(')].strip()
         params = []
@@ -1258,6 +1424,8 @@ class Translator:
         for p in d.get('inner', []):
             if p.get('kind') == 'ParmVarDecl':
                 pn = p.get('name') or 'verif_unused_%d' % pk
+                if pn == 'self' and is_method:
+                    pn = 'self_arg'; self.renames[p['id']] = pn       # a parameter called self would clash with the object pointer
                 pk += 1
                 params.append('%s %s' % (self.ctype(p['type']), pn))
         body = [c for c in d.get('inner', []) if c.get('kind') == 'CompoundStmt']
@@ -1326,7 +1494,8 @@ class Translator:
         for r in roots:
             if r.endswith('::*'):
                 pre = r[:-1]
-                out += [q for q in self.funcs_by_qual if q.startswith(pre) and '::' not in q[len(pre):]]
+                out += [q for q in self.funcs_by_qual if q.startswith(pre) and '::' not in q[len(pre):] and not q.endswith('::operator()')]
+                self.skip_patterns = True
             else:
                 out.append(r)
         return out
@@ -1339,6 +1508,7 @@ class Translator:
                 if optional: continue
                 raise SystemExit('EXTRACT-ABORT: function under contract not found: ' + r)
             for c in cands:
+                if getattr(self, 'skip_patterns', False) and self.is_template_pattern(c): continue
                 rootnames.append(self.use_func(c['id']))
         while self.todo:
             fid = self.todo.pop(0)
@@ -1354,6 +1524,17 @@ class Translator:
                 self.curfn = None
         self.curfn = None
         return rootnames
+
+    def is_template_pattern(self, d):
+        par = self.parent.get(d['id'])
+        if par is not None and par.get('kind') == 'FunctionTemplateDecl':
+            return not any(c.get('kind') == 'TemplateArgument' for c in d.get('inner', []))
+        # member of a class template pattern
+        while par is not None:
+            if par.get('kind') in ('ClassTemplateDecl',) : return True
+            if par.get('kind') == 'ClassTemplateSpecializationDecl': return False
+            par = self.parent.get(par.get('id')) if par.get('id') else None
+        return False
 
     def closure(self, names):
         seen = set(); st = list(names)
